@@ -146,8 +146,11 @@ CHECKS.update({
     "C20": ("Theorems evalRev_compile, C20_eval_history, C20_main, C20_history_irrelevant: the postfix stack machine returns the ordinary "
             "arithmetic value of the expression on top of ANY stack content (history independence for all histories); validator and "
             "creator are executable models checked by correspondence; pyparsing's grammar is third-party (expressions are rendered by the "
-            "harness with random redundant parentheses / spacing and parsed by the real parser).",
-            "Lean 4 proof (compiler correctness of the postfix evaluation, for every stack prefix) + differential correspondence over histories"),
+            "harness with random redundant parentheses / spacing and parsed by the real parser). "
+            "C20_src_eval / C20_src_evalFx / C20_src_history: evaluate_stack and eval_fx, regenerated from the source by harness/translate.py "
+            "(open recursion, kernel-pinned), compute evalRev on every stack of strings that stands for tokens, hence the arithmetic value after any history.",
+            "Lean 4 proof (compiler correctness of the postfix evaluation, for every stack prefix; refinement of the translated evaluate_stack to it) "
+            "+ differential correspondence over histories and raw stacks"),
 })
 
 def main():
